@@ -88,7 +88,7 @@ CHECKS = {
     ),
     "C03": dict(
         text="TLC checks the SCF control model (get_error data flow, active set, frozen rows, iteration caps, SP2 inner loop, epilogue) exhaustively: mask and returned flags truthful, no re-activation, converged rows frozen, bounded, liveness Terminates; spec mutants must be refuted. A lattice of real single-point jobs (molecules/padded batches/ions/UHF x fixed/adaptive/Pulay x SP2 tolerances x thresholds x start densities x caps) runs with SCF hooks on; every solver span is validated against the model by TLC (SCFTrace), and the self-consistency predicates (symmetry, trace, charge sum, idempotency, commutation, re-diagonalisation, energy functional) are evaluated at API return for every molecule reported converged; an SP2 loop exceeding its iteration budget counts as a call that does not return.",
-        note="Predicate bounds are C*max(scf_eps, effective SP2 tolerance)+floor with solver-aware constants calibrated on the unchanged tree (ratios recorded in the evidence); the Fock matrix in the predicates is the code's own, built from the returned density. KSA SCF (undocumented converger 3) is not covered.",
+        note="Predicate bounds are C*max(scf_eps, effective SP2 tolerance)+floor with solver-aware constants calibrated on the unchanged tree (ratios recorded in the evidence); the Fock matrix in the predicates is the code's own, built from the returned density. The Krylov (KSA) solver has no convergence-test hook: its jobs are judged by the predicates at API return only (no trace validation).",
         tech="explicit TLA+ model (SCF) checked by TLC incl. liveness; hook traces of the real solvers validated by TLC (SCFTrace); projection predicates at API return",
         ref="DESIGN.md §4 C03",
     ),
